@@ -198,6 +198,19 @@ func TestC16_hooks(t *testing.T) {
 					// make the 150-block conversion of collected swap fees do real work on several pairs at once: the
 					// collectors of all pairs hold a traded token that is not the distribution token, and the hooks
 					// run at a height divisible by 150
+					// every pair trades once first (a crossing buy and sell, then the blocks that execute the batch): the
+					// conversion prices its orders from the pair's last price
+					for j := range lc.Cfg.Pairs {
+						for _, o := range []lOp{{K: "limit", Pair: j, Buy: true, Tick: 3, A: "1000000", Life: 3600}, {K: "limit", Pair: j, Buy: false, Tick: -3, A: "1000000", Life: 3600}} {
+							lc.Ops = append(lc.Ops, o)
+							m.apply(len(lc.Ops)-1, o)
+						}
+					}
+					for k := 0; k < 4; k++ {
+						o := lOp{K: "block", Dt: 5}
+						lc.Ops = append(lc.Ops, o)
+						m.apply(len(lc.Ops)-1, o)
+					}
 					for j := range lc.Cfg.Pairs {
 						op := lOp{K: "feegift", Pair: j, Actor: rapid.IntRange(0, lNumLP-1).Draw(rt, fmt.Sprintf("cvgiver%d", j)),
 							A: rapid.SampledFrom([]string{"1000000", "7777777"}).Draw(rt, fmt.Sprintf("cvamt%d", j)),
@@ -288,6 +301,22 @@ func (m *lMachine) c16GaugeClasses(r *rec.Rec) {
 		params, err := m.k.GetGenericParams(c.Ctx, a.ID)
 		if err != nil {
 			continue
+		}
+		// pairs that have traded and whose fee collector holds something to convert
+		nconv := 0
+		for _, pair := range m.k.GetAllPairs(c.Ctx, a.ID) {
+			if pair.LastPrice == nil {
+				continue
+			}
+			for _, b := range c.App.BankKeeper.GetAllBalances(c.Ctx, pair.GetSwapFeeCollectorAddress()) {
+				if b.Denom != params.SwapFeeDistrDenom && b.Amount.IsPositive() {
+					nconv++
+					break
+				}
+			}
+		}
+		if nconv >= 2 {
+			r.Class("gauges:several-traded-pairs-with-fees-to-convert")
 		}
 		for _, pair := range m.k.GetAllPairs(c.Ctx, a.ID) {
 			n := 0
